@@ -147,9 +147,19 @@ pub fn run_case(c: &Case) -> CaseResult {
             ensure!(expectation(&sent[j].0, &sent[j].1) != Some(false), "C20/uncomputable-prefix-delivered", "block {j} prefix {:?} delivered under {cid}", sent[j].0);
         }
     }
+    // a canonical valid block must reach the user — judged only when the message it came in was demonstrably processed
+    // (another block of the same message was delivered); a message of which nothing arrived within the wait says nothing
+    // (the rogue's writes have timeouts of their own and the machine may be busy)
+    let mut msg_of: Vec<usize> = Vec::new();
+    for (mi, m) in c.messages.iter().enumerate() {
+        msg_of.extend(std::iter::repeat(mi).take(m.len()));
+    }
+    let mut unprocessed = false;
     for (j, (p, d)) in sent.iter().enumerate() {
-        if expectation(p, d) == Some(true) {
-            ensure!(used[j], "C20/valid-block-dropped", "block {j} of {} ({} bytes, prefix {:?}) never reached the user; {delivered} blocks delivered", sent.len(), d.len(), p);
+        if expectation(p, d) == Some(true) && !used[j] {
+            let processed = (0..sent.len()).any(|k| k != j && msg_of[k] == msg_of[j] && used[k]);
+            ensure!(!processed, "C20/valid-block-dropped", "block {j} of {} ({} bytes, prefix {:?}) never reached the user although other blocks of the same message did; {delivered} blocks delivered", sent.len(), d.len(), p);
+            unprocessed = true;
         }
     }
     Ok(CaseOk::trivial()
@@ -157,5 +167,6 @@ pub fn run_case(c: &Case) -> CaseResult {
         .class_if(several_with_bad_in_front, "valid-block-behind-an-undeliverable-one-in-one-message")
         .class_if(tampered_any, "tampered")
         .class_if(delivered > 0, "some-delivered")
-        .class_if(sent.len() > delivered, "some-dropped"))
+        .class_if(sent.len() > delivered, "some-dropped")
+        .class_if(unprocessed, "a-message-with-a-valid-block-was-not-processed-in-time"))
 }
